@@ -5,7 +5,6 @@ import (
 
 	"pgregory.net/rapid"
 
-	"github.com/free5gc/chf/verifapi"
 	"verifharness/h"
 )
 
@@ -20,10 +19,10 @@ func judgeC06(hst Hist) *h.Verdict {
 	for step, op := range hst.Ops {
 		st := w.subs[op.S%len(w.subs)]
 		si := op.S % len(w.subs)
-		pre := verifapi.Snapshot(st.supi)
+		pre := snapshot(st.supi)
 		preBal := map[int32]int64{}
 		for rg := int32(1); rg <= 3; rg++ {
-			preBal[rg], _ = env.Quota(st.supi, rg)
+			preBal[rg], _ = acctQuota(st.supi, rg)
 		}
 		var lv []*sess
 		if op.K == "update" || op.K == "release" {
@@ -138,7 +137,7 @@ func judgeC06(hst Hist) *h.Verdict {
 		// (2) no negative balance
 		for sj, s2 := range w.subs {
 			for rg := int32(1); rg <= 3; rg++ {
-				q, err := env.Quota(s2.supi, rg)
+				q, err := acctQuota(s2.supi, rg)
 				if err != nil {
 					return v.Failf("quota-unreadable", "step %d: %v", step, err)
 				}
@@ -161,7 +160,7 @@ func judgeC06(hst Hist) *h.Verdict {
 var rec *h.Recorder
 
 func genC06(t *rapid.T) Hist {
-	return genHist(t, genOpts{maxSubs: 2, maxSess: 1, minOps: 4, maxOps: h.Scale(20, 36), recharge: true, compliant: true, distinctRG: true, lowBalance: true, offline: true, bigCost: true})
+	return genHist(t, genOpts{maxSubs: 2, maxSess: 1, minOps: 4, maxOps: h.Scale(20, 36), recharge: true, compliant: true, distinctRG: true, lowBalance: true, offline: true, bigCost: true, rgNums: true})
 }
 
 func TestC06NoOverdraft(t *testing.T) {
